@@ -641,7 +641,13 @@ func c11Classify(side *c11Side, err error, name string, alerts []c11Alert) {
 // ---------------------------------------------------------------- runner
 
 // like newLab but reports constructor errors instead of failing the test
+// c11ConfigHook lets a debugging run attach loggers to both configurations.
+var c11ConfigHook func(c, s *dtlsConfig)
+
 func c11NewLab(ccfg, scfg *dtlsConfig, res *c11Case) *vLab {
+	if c11ConfigHook != nil {
+		c11ConfigHook(ccfg, scfg)
+	}
 	n := newVNet()
 	lab := &vLab{Net: n}
 	cep := n.endpoint("client")
@@ -1511,6 +1517,13 @@ func c11RegressPairs() []c11Job {
 		c.Min, c.Max, s.Min, s.Max = 3, 3, 3, 3
 	})
 	add("client-certificate-required-dtls12", func(_, s *c11Cfg) { s.Key, s.ClientAuth = 1, 4 })
+	// client authentication with no scheme that both lists allow for the client's key: the client refuses
+	// (insufficient_security) instead of signing outside its own policy
+	add("client-certificate-verify-no-common-scheme", func(c, s *c11Cfg) {
+		s.Key, c.Key, s.ClientAuth = 1, 2, 2
+		c.SkipVerify = true
+		c.Sigs, s.Sigs = []int{0x0807, 0x0503}, []int{0x0807, 0x0403}
+	})
 	add("server-ignores-client-signature-algorithms", func(c, s *c11Cfg) {
 		s.Key = 2
 		c.Sigs, s.Sigs = []int{0x0403}, []int{0x0503, 0x0403}
